@@ -410,6 +410,30 @@ def rule_missing(ctx: Ctx) -> None:  # noqa: C901, PLR0915
             "every part of a tuple output is looked up", "only some parts of a tuple output are looked up", "iteration over the output names not recognised", key="tuple-all-exist")
 
 
+    # "is stored" is asked of the STORE (is_file / exists), never read off the loaded value: None is a legal stored result, and a
+    # function that returned None would be re-run on every resume (and its `exists` would say False although the file is there)
+    from ..flow import dependence_text
+
+    rets = [r.value for r in walk_no_nested(lfs.node) if isinstance(r, ast.Return) and r.value is not None]
+    flags: list[ast.AST] = []
+    for r in rets:
+        rv = Defs(lfs).resolve(r)
+        if isinstance(rv, ast.Call) and (len(rv.args) == 2 or any(k.arg == "exists" for k in rv.keywords)):
+            flags.append(next((k.value for k in rv.keywords if k.arg == "exists"), rv.args[1] if len(rv.args) == 2 else rv.args[-1]))
+        elif isinstance(rv, ast.Tuple) and len(rv.elts) == 2:
+            flags.append(rv.elts[1])
+    if not flags:
+        ctx.add("3-missing", lfs, lfs.node, None, "UNDECIDED: the `exists` part of what _load_from_store returns was not recognised", key="exists-asked-of-store")
+    else:
+        dep = " ".join(dependence_text(lfs.node, f_) for f_ in flags)
+        by_value = re.search(r"\b(\w+) is (not )?None\b", dep)
+        asked = any(w in dep for w in (".is_file()", ".exists()", "os.path.isfile(", "os.path.exists("))
+        plain_false = [a_ for a_ in walk_no_nested(lfs.node) if isinstance(a_, ast.Assign) and isinstance(a_.value, ast.Constant) and a_.value.value is False and any(norm(t_) in dep for t_ in a_.targets)]
+        ctx.tri("3-missing", lfs, lfs.node, (asked or bool(plain_false)) and not by_value, bool(by_value) and not plain_false,
+                "whether an output is stored is decided by asking the store", f"`{by_value.group(0) if by_value else ''}` decides whether an output is stored: a stored None (a function that returns None) counts as missing - "
+                "the function is run again on every resume instead of its stored result being used", "how the `exists` flag is computed was not recognised", key="exists-asked-of-store")
+
+
 def _conds_of(node: ast.AST, root: ast.AST) -> list[str]:
     par = _parents(root)
     out = []
